@@ -123,3 +123,20 @@ Lemma guarded_accesses_ordered :
     exec s1' tr2 s2 -> step s2 (j, Acc x w2) s2' -> i <> j ->
     exists a b c, tr2 = a ++ (i, Rel m) :: b ++ (j, Acq m) :: c.
 Proof. intros. eapply disciplined_accesses_ordered; eauto. Qed.
+
+(* rule P: no path object is inserted twice or written after its insertion (no exception on the current tree) *)
+Lemma no_shared_path_insertions : forall r, In r shared_path_sites -> shared_exc r <> None.
+Proof.
+  assert (H : forallb (fun r => match shared_exc r with Some _ => true | None => false end) shared_path_sites = true)
+    by (vm_compute; reflexivity).
+  intros r Hin. rewrite forallb_forall in H. specialize (H r Hin). destruct (shared_exc r); [discriminate|discriminate].
+Qed.
+
+(* rule J: whoever addresses a goroutine of its type through a channel / WaitGroup field waits for it *)
+Lemma goroutines_joined_on_teardown : forall r, In r goroutine_joins -> join_waits r = true \/ join_exc r <> None.
+Proof.
+  assert (H : forallb (fun r => join_waits r || match join_exc r with Some _ => true | None => false end) goroutine_joins = true)
+    by (vm_compute; reflexivity).
+  intros r Hin. rewrite forallb_forall in H. specialize (H r Hin).
+  apply orb_true_iff in H. destruct H as [H|H]; auto. right. destruct (join_exc r); [discriminate|discriminate].
+Qed.
